@@ -41,7 +41,13 @@ def handle (op : String) (args : List String) (impl : String) : Verdict :=
         | some x => if a.isOne then true else (invOK a p x).1
         | none => false
       { model := showOptDec model, mi := model == some r, si := ok, sm := mok, note := why,
-        tag := "inv:" ++ mode ++ (if p ≤ 3 then ":p<=3" else if p ≤ 5 then ":p<=5" else ":p>5") ++ (if a.int < 0 then ":neg" else ":pos"),
+        tag := "inv:" ++ mode ++ (if p ≤ 3 then ":p<=3" else if p ≤ 5 then ":p<=5" else ":p>5") ++ (if a.int < 0 then ":neg" else ":pos")
+          -- premise of C12_exit_accuracy observed on the real initial guess: |1 - |x| * g| <= 7/10
+          ++ (let e := Spec.sub ⟨1, 0⟩ (Spec.mul ⟨a.int.natAbs, a.scale⟩ g)
+              if Spec.valueCmp ⟨e.int.natAbs, e.scale⟩ ⟨7, 1⟩ != .gt then ""
+              else if Spec.valueCmp ⟨e.int.natAbs, e.scale⟩ ⟨94, 2⟩ != .gt then "+guess-beyond-70-percent"
+              else if Spec.valueCmp ⟨e.int.natAbs, e.scale⟩ ⟨999, 3⟩ != .gt then "+guess-beyond-94-percent"
+              else "+guess-beyond-99.9-percent"),
         trivial := false }
     | _, _, _, _, _ => badInput "inv args"
   | "oneover", [form, a, guess] =>
